@@ -14,6 +14,13 @@ import (
 func init() { register("C02", checkC02) }
 
 func checkC02(p *Prog, r *Report) {
+	r.rule("C02.int-width / C02.build-wrap (imported from C01 / C20): integer attributes come back through a parser at least as wide as their kind; BuildType and Wrap name a struct's fields alike")
+	nIW := r.importRules(func(r2 *Report) { checkC01(p, r2) }, "C02.int-width", "R2.int-width")
+	r.floor("imported integer width obligations", nIW, 20)
+	nBW := r.importRules(func(r2 *Report) { checkBuildWrapAgreement(p, r2) }, "C02.build-wrap", "C20.sibling-agreement")
+	r.floor("imported build/wrap obligations", nBW, 1)
+	r.rule("C02.type-lookup: Schema.GetType / HasType find a type by one exact equality test between a type's Name and the requested name and call nothing else (the comparison AddType uses to keep names unique)")
+	checkTypeLookup(p, r, "C02")
 	r.rule("C02.check-complete: SoftResource.check, which Get runs before MarshalResource reads a soft resource's values, cannot return before its loops that zero-fill missing and drop stale fields (shared with C17)")
 	checkSoftCheckComplete(p, r, "C02")
 	r.rule("C02.plumbing / C02.fresh-linkage (shared with C01/C06): UnmarshalResource, through which every primary and included resource comes back, sets the id as decoded, each attribute from UnmarshalToType's result and each relationship from its decoded linkage, whose decode target is fresh per relationship")
